@@ -372,7 +372,8 @@ Definition copy_of (s : rstate) : rstate + err :=
 
 Inductive pop :=
 | POn (on_copy : bool) (o : op)        (* the operation on the original / on the copy *)
-| PCopy.                               (* copy = response.copy(HTTPResponse) *)
+| PCopy                                (* copy = response.copy(HTTPResponse) *)
+| PApplyCopy.                          (* copy.apply(response): redirect() raises the copy, Ombott._cast applies it *)
 
 Definition pstate := (rstate * option rstate)%type.
 
@@ -389,6 +390,12 @@ Definition pstep (st : pstate) (p : pop) : pstate * option err * bool :=
              | inl cs => ((r, Some cs), None, false)
              | inr e => (st, Some e, false)
              end
+  | PApplyCopy =>
+    match c with
+    | None => (st, None, true)
+    | Some cs =>                              (* response.py:274 apply: status, headers replaced; cookies if any *)
+      ((mkR (st_code cs) (st_store cs) (match st_jar cs with [] => st_jar r | j => j end), c), None, false)
+    end
   end.
 
 Fixpoint prun (st : pstate) (ps : list pop) : pstate :=
@@ -616,6 +623,7 @@ Definition dec_pop (l : list Z) : option (pop * list Z) :=
                       | None => None
                       end
   | 1%Z :: r => Some (PCopy, r)
+  | 2%Z :: r => Some (PApplyCopy, r)
   | _ => None
   end.
 
